@@ -6,6 +6,8 @@ set -u
 patch="$(readlink -f "$1")"; shift
 WT=/var/tmp/vmut/repo; VR=/var/tmp/vmut/verif
 mkdir -p /var/tmp/vmut
+# one mutant run at a time (the scratch trees are shared)
+exec 9>/var/tmp/vmut/.lock; flock 9
 # scratch copy of /repo's current working tree (committed or not), never /repo itself
 mkdir -p "$WT"
 rsync -a --delete --exclude target --exclude .git /repo/ "$WT"/
